@@ -86,6 +86,12 @@ Definition of_both (x : outcome (list dtag * list dtag) date_err) : pres (list t
 Lemma str_eqb_eq : forall a b, str_eqb a b = list_eqb a b.
 Proof. induction a as [|x a IH]; destruct b as [|y b]; cbn; try reflexivity; now rewrite IH. Qed.
 
+Lemma list_eqb_sym : forall a b, list_eqb a b = list_eqb b a.
+Proof. induction a as [|x a IH]; destruct b as [|y b]; cbn; try reflexivity. rewrite N.eqb_sym, IH. reflexivity. Qed.
+
+Lemma str_eqb_sym : forall a b, str_eqb a b = str_eqb b a.
+Proof. intros a b. rewrite !str_eqb_eq. apply list_eqb_sym. Qed.
+
 Lemma str_startswith_eq : forall p s, str_startswith s p = starts_with p s.
 Proof.
   unfold starts_with. induction p as [|c p IH]; intro s; [reflexivity|].
@@ -166,17 +172,17 @@ Proof.
     destruct (parse_date_re E (strip (sp_strip E) s)) as [[[date time] [zh zm|a|]]|];
       cbn [option_map groups_of is_some negb oget_groups oget_str g_date g_time g_zhour g_zminute g_zabbr andb obind of_outcome of_err];
       try reflexivity.
-    + apply fix_tail_eq.
+    + rewrite <- ?app_assoc. apply fix_tail_eq.
     + rewrite py_getitem_eq. destruct (lookup (tz_table E) a) as [[|z [|z' l]]|]; cbn [pbind py_unpack1 exn_isa obind of_outcome of_err]; try reflexivity.
-      apply fix_tail_eq.
-    + apply fix_tail_eq.
+      rewrite <- ?app_assoc. apply fix_tail_eq.
+    + rewrite <- ?app_assoc. apply fix_tail_eq.
   - cbn [of_outcome pbind obind].
     destruct (parse_date_re E (strip (sp_strip E) s)) as [[[date time] [zh zm|a|]]|];
       cbn [option_map groups_of is_some negb oget_groups oget_str g_date g_time g_zhour g_zminute g_zabbr andb obind of_outcome of_err];
       try reflexivity.
-    + apply fix_tail_eq.
+    + rewrite <- ?app_assoc. apply fix_tail_eq.
     + rewrite py_getitem_eq. destruct (lookup (tz_table E) a) as [[|z [|z' l]]|]; cbn [pbind py_unpack1 exn_isa obind of_outcome of_err]; try reflexivity.
-      apply fix_tail_eq.
+      rewrite <- ?app_assoc. apply fix_tail_eq.
 Qed.
 
 (* ------------------------------------------------------------------ *)
@@ -257,22 +263,18 @@ Proof.
   cbn [src_check_dates_loop2 check_each]. rewrite IH. clear IH.
   set (K := check_each E now (dctx_of tmpl bin pub) is_po r).
   unfold check_one. cbn [ctx_of dctx_of ctx_is_template is_template is_publican].
-  rewrite Hpo, str_eqb_eq. change src_boilerplate_date with boilerplate_date.
-  destruct (tmpl && is_po && list_eqb x boilerplate_date).
-  { cbn [obind]. destruct K; reflexivity. }
+  change src_boilerplate_date with boilerplate_date. rewrite Hpo, ?str_eqb_eq, ?(list_eqb_sym boilerplate_date x).
   unfold str_has. rewrite !src_fix_date_format_eq. unfold pystr.
-  destruct (existsb (N.eqb 84) x && pub).
-  - change ([45; 48; 48; 48; 48]%N) with hint_utc.
-    destruct (fix_date E (Some hint_utc) x) as [fixed|[|]|k]; cbn [of_outcome of_err exn_isa].
-    + apply (after_fix_eq E now f x fixed _ K). reflexivity.
-    + cbn [obind]. destruct K; reflexivity.
-    + cbn [obind]. destruct K; reflexivity.
-    + reflexivity.
-  - destruct (fix_date E None x) as [fixed|[|]|k]; cbn [of_outcome of_err exn_isa].
-    + apply (after_fix_eq E now f x fixed _ K). reflexivity.
-    + cbn [obind]. destruct K; reflexivity.
-    + cbn [obind]. destruct K; reflexivity.
-    + reflexivity.
+  change ([45; 48; 48; 48; 48]%N) with hint_utc.
+  (* every atomic test separately: the order of the operands of `and` does not matter *)
+  destruct tmpl, is_po, (list_eqb x boilerplate_date), (existsb (N.eqb 84) x), pub; cbn [andb];
+    try (cbn [obind]; destruct K; reflexivity);
+    match goal with |- context [fix_date E ?h x] => destruct (fix_date E h x) as [fixed|[|]|k] end;
+    cbn [of_outcome of_err exn_isa];
+    try reflexivity;
+    try (cbn [obind]; destruct K; reflexivity);
+    rewrite ?(str_eqb_sym fixed x);
+    apply (after_fix_eq E now f x fixed _ K); reflexivity.
 Qed.
 
 (* one iteration of `for field in ...` followed by the remaining ones *)
@@ -288,7 +290,7 @@ Proof.
   set (L := src_check_dates_loop1 _ _ pub fs).
   unfold check_field. cbn [dctx_of is_binary].
   destruct (md f) as [|d1 [|d2 l]]; cbn [length Nat.ltb Nat.leb Nat.eqb].
-  - destruct (negb is_po && bin); destruct L; reflexivity.
+  - destruct is_po, bin; destruct L; reflexivity.
   - reflexivity.
   - destruct (check_each E now (dctx_of tmpl bin pub) is_po (sorted_set (d1 :: d2 :: l))); destruct L; reflexivity.
 Qed.
